@@ -10,5 +10,10 @@ func init() {
 		e.RCover("restore", e.dstNodeNames(), true)
 		e.RSeq()
 		e.RSym()
+		e.RDecs(false)
+		e.REntry()
+		e.RFileScope()
+		e.RClauseSym()
+		e.RCursor(false)
 	})
 }
